@@ -366,6 +366,7 @@ def run_c18(rep):
     import fam_graph
     n, ops = sizes(rep, (300, 14), (5000, 30))
     fam_graph.graph_family(rep, n, ops, "C18", known_classes=known_classes("C18"))
+    fam_graph.fixed_graph_probes(rep, "C18")
 
 
 def run_c12(rep):
@@ -386,6 +387,7 @@ def run_c19(rep):
     families.play_family(rep, n2, ops2, features=dict(hooks=0, join=0, params=0.4, loops=0.5),
                          weights=dict(choose=60, undo=12, redo=8, save=5, load=4, fresh=3, goto=3, read=3, bad=2, loadbad=0),
                          oracle_names=["oracle_c04"], known_classes=known_classes("C19"), variant="browser", label="c19-model")
+    fam_browser.long_history_probe(rep)
     fam_browser.bundle_check(rep, sizes(rep, 6, 20), rep.seed)
 
 
